@@ -60,6 +60,13 @@ var OutsideAtoms = []OutsideAtom{
 	{ID: "labeled", Kind: "stmt", Code: "outer:\n\tfor {\n\t\tx++\n\t\tif x > 3 {\n\t\t\tbreak outer\n\t\t}\n\t}", Site: "stmtInBlock default (labeled)"},
 	{ID: "gotostmt", Kind: "stmt", Code: "if x > 100 {\n\t\tgoto done\n\t}\n\tx += 5\ndone:\n\tx += 1", Site: "branchStmt / labeled", NoLoop: true},
 	{ID: "arrayvar", Kind: "stmt", Code: "var arr [3]uint64\n\tarr[1] = x\n\tx = arr[1] + arr[0] + uint64(len(arr))", Site: "arrays"},
+	{ID: "caparray", Kind: "stmt", Code: "var arr2 [4]uint64\n\tx += uint64(cap(arr2)) + uint64(len(arr2))", Site: "capExpr / lenExpr of an array"},
+	{ID: "hugeliteral", Kind: "stmt", Code: "x += (18446744073709551616 - 1) & 7", Site: "basicLiteral: int literals must be positive numbers (out of uint64 range)"},
+	{ID: "untypedconv", Kind: "stmt", Code: "const uc = 5\n\tx += uint64(uc) + uint64(len(\"abc\"))", Site: "integerConversion: conversion from untyped int"},
+	{ID: "mapconv", Kind: "stmt", Code: "type mm3 map[uint64]uint64\n\tm3 := map[uint64]uint64(mm3(m))\n\tx += m3[1]", Site: "exprSpecial: MapType as expression"},
+	{ID: "sliceconv", Kind: "stmt", Code: "s4 := Bytes(bs)\n\ts5 := []byte(s4)\n\tx += uint64(len(s5))", Site: "conversion between slice types"},
+	{ID: "ptrconv", Kind: "stmt", Code: "ph := (*H)(p)\n\tx += ph.f", Site: "conversion to a pointer type"},
+	{ID: "timenow", Kind: "stmt", Code: "t0 := machine.TimeNow()\n\tif t0 == t0 {\n\t\tx += 1\n\t}\n\tmachine.Sleep(1)", Site: "packageMethod TimeNow / Sleep"},
 	{ID: "int64type", Kind: "stmt", Code: "var sg int64 = int64(x)\n\tsg = sg - 10\n\tif sg < 0 {\n\t\tx = 1000\n\t}", Site: "coqTypeOfType: basic type"},
 	{ID: "inttype", Kind: "stmt", Code: "n := len(s)\n\tif n-5 < 0 {\n\t\tx = 2000\n\t}", Site: "signed arithmetic from len"},
 	{ID: "floatlit", Kind: "stmt", Code: "fl := 1.5\n\tx += uint64(fl * 2)", Site: "basicLiteral: literal with kind"},
